@@ -7,16 +7,18 @@ Import ListNotations.
 From Modbus Require Import Base.Bytes Model.GoLite.
 Open Scope N_scope.
 
-Ltac not_closed_fail t := match t with context [?x] => is_var x; fail 2 | _ => idtac end.
+Ltac has_var t := match t with context [?x] => is_var x end.
+Ltac closed_tm t := tryif has_var t then fail else idtac.
 
-(* evaluate conversions and comparisons whose operands are closed numerals *)
+(* evaluate conversions and comparisons whose operands are closed numerals
+   (occurrences with open operands are skipped) *)
 Ltac gl_consts :=
   repeat match goal with
-  | |- context [N.to_nat ?a] => not_closed_fail a; let r := eval vm_compute in (N.to_nat a) in change (N.to_nat a) with r
-  | |- context [N.of_nat ?a] => not_closed_fail a; let r := eval vm_compute in (N.of_nat a) in change (N.of_nat a) with r
-  | |- context [N.eqb ?a ?b] => not_closed_fail a; not_closed_fail b; let r := eval vm_compute in (N.eqb a b) in change (N.eqb a b) with r
-  | |- context [N.ltb ?a ?b] => not_closed_fail a; not_closed_fail b; let r := eval vm_compute in (N.ltb a b) in change (N.ltb a b) with r
-  | |- context [N.leb ?a ?b] => not_closed_fail a; not_closed_fail b; let r := eval vm_compute in (N.leb a b) in change (N.leb a b) with r
+  | |- context [N.to_nat ?a] => closed_tm a; let r := eval vm_compute in (N.to_nat a) in change (N.to_nat a) with r
+  | |- context [N.of_nat ?a] => closed_tm a; let r := eval vm_compute in (N.of_nat a) in change (N.of_nat a) with r
+  | |- context [N.eqb ?a ?b] => closed_tm a; closed_tm b; let r := eval vm_compute in (N.eqb a b) in change (N.eqb a b) with r
+  | |- context [N.ltb ?a ?b] => closed_tm a; closed_tm b; let r := eval vm_compute in (N.ltb a b) in change (N.ltb a b) with r
+  | |- context [N.leb ?a ?b] => closed_tm a; closed_tm b; let r := eval vm_compute in (N.leb a b) in change (N.leb a b) with r
   end.
 
 (* full symbolic evaluation: everything but N arithmetic is computed; for
